@@ -1,5 +1,5 @@
 #!/usr/bin/env python3
-"""Checker self-test: apply one small source mutation to /repo in place, run the
+"""Checker self-test: apply one small source mutation to a scratch worktree of /repo (/tmp/selftest-wt, own fact cache), run the
 named check, require that it fires (exit 1) and names the expected rule, then
 restore the file. Benign mutations (expect = null) must leave the check silent.
 
@@ -7,7 +7,19 @@ usage: selftest/run.py [id-substring ...]     (no args: all mutants)
 """
 import json, os, subprocess, sys, time
 ROOT = os.path.dirname(os.path.dirname(os.path.abspath(__file__)))
-REPO = "/repo"
+REPO = "/tmp/selftest-wt"
+ENV = dict(os.environ, CEDAR_REPO=REPO, CEDAR_VERIF_CACHE="/tmp/selftest-cache", VERIF_EVIDENCE_DIR="/tmp/selftest-evidence")
+
+
+def prepare():
+    """Scratch worktree of /repo's HEAD (outside /repo and /verif) with its own fact cache."""
+    head = subprocess.run(["git", "-C", "/repo", "rev-parse", "HEAD"], capture_output=True, text=True).stdout.strip()
+    if not os.path.isdir(REPO):
+        subprocess.run(["git", "-C", "/repo", "worktree", "add", "--detach", REPO, head], check=True, capture_output=True)
+    subprocess.run(["git", "-C", REPO, "checkout", "-q", "--detach", head], check=True)
+    subprocess.run(["git", "-C", REPO, "checkout", "-q", "--", "."], check=True)
+    os.makedirs("/tmp/selftest-evidence", exist_ok=True)
+
 
 
 def main():
@@ -15,6 +27,7 @@ def main():
     sel = sys.argv[1:]
     if sel:
         muts = [m for m in muts if any(s in m["id"] for s in sel)]
+    prepare()
     st = subprocess.run(["git", "-C", REPO, "status", "--porcelain", "--untracked-files=no"], capture_output=True, text=True).stdout.strip()
     if st:
         print("refusing: /repo has local modifications:\n" + st)
@@ -33,7 +46,7 @@ def main():
             open(path, "w").write(src.replace(m["old"], m["new"]))
             outs = {}
             for pid in m["checks"]:
-                p = subprocess.run([os.path.join(ROOT, "bin", "check"), pid], capture_output=True, text=True, cwd=ROOT)
+                p = subprocess.run([os.path.join(ROOT, "bin", "check"), pid], capture_output=True, text=True, cwd=ROOT, env=ENV)
                 outs[pid] = (p.returncode, p.stdout + p.stderr)
         finally:
             open(path, "w").write(src)
